@@ -576,14 +576,15 @@ top:
 		return nil
 
 	case LexerUnquote:
+		lexer.state = LexerNormal
 		if r == '@' {
 			lexer.AppendToken(lexer.Token(TokenTildeAt, ""))
-		} else {
-			lexer.AppendToken(lexer.Token(TokenTilde, ""))
-			lexer.buffer.WriteRune(r)
+			return nil
 		}
-		lexer.state = LexerNormal
-		return nil
+		// the rune after the tilde begins the unquoted expression, which
+		// need not be an atom: lex it as usual.
+		lexer.AppendToken(lexer.Token(TokenTilde, ""))
+		goto top
 	case LexerFreshAssignOrColon:
 		lexer.state = LexerNormal
 
